@@ -16,34 +16,31 @@ var replay = []struct {
 	Idx  int
 	Sig  string // what the case is expected to show (documentation only)
 }{
-	{1, "closed.vector", 15216, "C16|closed.vector|vectorNormal|d>=2,floor-active|error"},
-	{1, "closed.vector", 368, "C16|closed.vector|vectorNormal|d>=2,floor-active|not-maximal:Sigma"},
+	{1, "closed.vector", 1168, "C16|closed.vector|vectorNormal|d>=2,floor-active|not-maximal:Sigma"},
 	{1, "closed.wrapper", 800, "C16|closed.wrapper|ScalarIid(n=-1)|rows=1,dim>1,weighted|panic"},
 	{1, "closed.wrapper", 48, "C16|closed.wrapper|ScalarIid(n=-1)|rows>1,dim>1,weighted|panic"},
 	{1, "closed.wrapper", 288, "C16|closed.wrapper|ScalarIid|rows=1,dim>1,weighted|panic"},
 	{1, "closed.wrapper", 16, "C16|closed.wrapper|ScalarIid|rows>1|error"},
-	{1, "closed.wrapper", 49, "C16|closed|scalarNormal-moments|mean/sd<1e6|not-maximal"},
-	{1, "closed.scalar", 5808, "C16|closed|scalarNormal-moments|mean/sd>=1e6|not-maximal"},
-	{1, "closed.scalar", 2704, "C16|closed|scalarNormal-moments|sd=0|not-maximal"},
-	{7, "closed.vector", 664, "C16|closed|vectorNormal-moments|mean/sd<1e4|not-maximal"},
-	{1, "closed.vector", 29152, "C16|closed|vectorNormal-moments|mean/sd<1e6|error"},
-	{1, "closed.vector", 1024, "C16|closed|vectorNormal-moments|mean/sd<1e6|not-maximal"},
-	{1, "closed.vector", 23540, "C16|closed|vectorNormal-moments|mean/sd>=1e6|bound"},
-	{1, "closed.vector", 1873, "C16|closed|vectorNormal-moments|mean/sd>=1e6|error"},
-	{1, "closed.vector", 176, "C16|closed|vectorNormal-moments|mean/sd>=1e6|not-maximal"},
+	{1, "closed.wrapper", 2256, "C16|closed|scalarNormal-moments|mean/sd<1e6|wrong-estimate"},
+	{1, "closed.scalar", 5808, "C16|closed|scalarNormal-moments|mean/sd>=1e6|wrong-estimate"},
+	{1, "closed.scalar", 2704, "C16|closed|scalarNormal-moments|sd=0|wrong-estimate"},
+	{1, "closed.vector", 368, "C16|closed|vectorNormal-moments|mean/sd<1e4|wrong-estimate"},
+	{1, "closed.vector", 1024, "C16|closed|vectorNormal-moments|mean/sd<1e6|wrong-estimate"},
+	{1, "closed.vector", 15216, "C16|closed|vectorNormal-moments|mean/sd>=1e6|wrong-estimate"},
+	{7, "closed.vector", 5663, "C16|closed|vectorNormal-moments|sd=0|wrong-estimate"},
 	{1, "em.hmm.options", 17, "C16|em.hmm.options|matrixHmm,OptimizeTransitions=false|panic"},
 	{1, "em.hmm.options", 0, "C16|em.hmm.options|vectorHmm,OptimizeTransitions=false|panic"},
 	{1, "em.hmm", 137, "C16|em|categorical|component-parameters-nan|nan-likelihood"},
 	{1, "em.hmm", 174, "C16|em|exponential|component-parameters-nan|nan-likelihood"},
 	{1, "em.mixture.scalar", 48, "C16|em|geometric|component-density-nan|nan-likelihood"},
-	{2, "em.hmm", 268, "C16|em|geometric|component-parameters-nan|nan-likelihood"},
+	{1, "em.hmm", 1728, "C16|em|geometric|component-parameters-nan|nan-likelihood"},
 	{1, "em.hmm", 395, "C16|em|hmm|final-state-set|decrease"},
-	{1, "em.mixture.scalar", 113, "C16|em|negativeBinomial|component-density-nan|nan-likelihood"},
+	{1, "em.mixture.scalar", 800, "C16|em|negativeBinomial|component-density-nan|nan-likelihood"},
 	{42, "em.mixture.vector", 340, "C16|em|normal-moments|mean/sd<1e4|decrease"},
 	{7, "em.mixture.vector", 200, "C16|em|normal-moments|mean/sd<1e6|decrease"},
-	{1, "em.hmm", 563, "C16|em|normal-moments|mean/sd>=1e6|decrease"},
-	{1, "em.mixture.vector", 146, "C16|em|normal-moments|sd=0|decrease"},
-	{1, "em.hmm", 330, "C16|em|normal|component-parameters-nan|nan-likelihood"},
+	{1, "em.hmm", 1282, "C16|em|normal-moments|mean/sd>=1e6|decrease"},
+	{1, "em.mixture.vector", 1072, "C16|em|normal-moments|sd=0|decrease"},
+	{1, "em.hmm", 1026, "C16|em|normal|component-parameters-nan|nan-likelihood"},
 	{1, "em.hmm", 66, "C16|em|poisson|component-parameters-nan|nan-likelihood"},
 	{2, "em.mixture.vector", 173, "C16|em|vectorNormal|d>=2,floor-active|decrease"},
 	{1, "numeric", 96, "C16|numeric|bfgs|moved|not-stationary"},
